@@ -26,8 +26,7 @@ theorem loadWav_total (f : Bytes) : ∃ r, loadWav f = .ok r := by
   unfold loadWav
   split
   · exact ⟨none, rfl⟩
-  · rename_i h
-    exact Wave.readWav_total f (by omega)
+  · exact Wave.readWav_total f
 
 theorem loadSample_routed (file : Option Bytes) : (loadSample file).routed := by
   unfold loadSample
